@@ -719,6 +719,14 @@ def value_in_section(e, sy):
         if not tls:
             return "TLS symbol but no PT_TLS"
         va = tls[0].vaddr + sy.value
+        if sy.size == 0:
+            # a zero-sized TLS symbol is a boundary marker of the TLS *segment* (_TLS_MODULE_BASE_ sits at the end of
+            # the segment rounded up to its alignment, where GNU ld puts it too): judged against the padded segment
+            al = max(tls[0].align, 1)
+            end = (tls[0].vaddr + tls[0].memsz + al - 1) // al * al
+            if tls[0].vaddr <= va <= end:
+                return None
+            return f"TLS boundary symbol value {va:#x} outside the padded TLS segment [{tls[0].vaddr:#x},{end:#x}]"
     else:
         va = sy.value
     if not (s.addr <= va and va + sy.size <= s.addr + s.size):
